@@ -54,8 +54,15 @@ func NeedSep(a, b Tok) bool {
 		// "invalid syntax" rule
 		return b.K == KWord || b.K == KNum || b.K == KStr
 	case KNum:
+		// a word that starts with '_' ends a number without any separator
+		if b.K == KWord && strings.HasPrefix(b.S, "_") {
+			return false
+		}
 		return b.K == KWord || b.K == KNum || b.K == KStr
 	case KStr:
+		if b.K == KWord && strings.HasPrefix(b.S, "_") {
+			return false
+		}
 		return b.K == KWord || b.K == KNum
 	case KPunct:
 		if b.K != KPunct {
